@@ -226,15 +226,52 @@ def check_proofs(pid, tier):
 _IMPL = None
 
 
+class CaseTimeout(BaseException):
+    pass
+
+
+def _alarm(signum, frame):
+    raise CaseTimeout()
+
+
+CASE_TIMEOUT = int(os.environ.get("VERIF_CASE_TIMEOUT", "20"))
+
+
 def _impl_one(case):
+    import signal
+    old = None
+    try:
+        old = signal.signal(signal.SIGALRM, _alarm)
+        signal.alarm(CASE_TIMEOUT)
+    except ValueError:   # not in the main thread
+        old = None
     try:
         return _IMPL(case)
+    except CaseTimeout:
+        return ["driver-exception", "Hung", "the case did not finish within %d s" % CASE_TIMEOUT]
     except BaseException as e:  # the driver itself failed: visible as an observation
         return ["driver-exception", type(e).__name__, str(e)[:200]]
+    finally:
+        if old is not None:
+            signal.alarm(0)
+            signal.signal(signal.SIGALRM, old)
+
+
+_ENCODE = None
+
+
+def _encode_one(c):
+    try:
+        return _ENCODE(c)
+    except BaseException as e:  # noqa
+        return "encode-failed " + type(e).__name__
 
 
 def _impl_chunk(cases):
-    return [enc_line(_as_items(_impl_one(c))) for c in cases]
+    # the case line for the model is computed in the worker too: an ENCODE hook may run
+    # baize (e.g. to obtain the bare application's trace) and must not start threads in
+    # the parent before the fork
+    return [(_encode_one(c), enc_line(_as_items(_impl_one(c)))) for c in cases]
 
 
 def _as_items(obs):
@@ -242,10 +279,23 @@ def _as_items(obs):
 
 
 def run_impl(mod, cases, parallel=True):
-    global _IMPL
+    """returns (case lines for the model, observation lines of the implementation)"""
+    pairs = _run_impl_pairs(mod, cases, parallel)
+    return [p[0] for p in pairs], [p[1] for p in pairs]
+
+
+def _run_impl_pairs(mod, cases, parallel=True):
+    global _IMPL, _ENCODE
     _IMPL = mod.impl
-    if not parallel or len(cases) < 64 or getattr(mod, "SERIAL", False):
+    _ENCODE = getattr(mod, "ENCODE", enc_line)
+    if not cases:
+        return []
+    if not parallel or getattr(mod, "SERIAL", False):
         return _impl_chunk(cases)
+    if len(cases) < 64:
+        ctx = mp.get_context("fork")
+        with ctx.Pool(1) as pool:
+            return pool.map(_impl_chunk, [cases])[0]
     n = NCPU
     size = max(1, (len(cases) + n * 4 - 1) // (n * 4))
     chunks = [cases[i:i + size] for i in range(0, len(cases), size)]
@@ -389,11 +439,8 @@ def run_check(mod, tier, seed, replay=None):
         for label, c in mod.cases(tier, rng):
             cases.append(c)
             dist[label] = dist.get(label, 0) + 1
-    encode = getattr(mod, "ENCODE", enc_line)   # a module may render its cases for the model itself
-    lines = [encode(c) for c in cases]
-
-    # ---- both sides
-    impl_lines = run_impl(mod, cases)
+    # ---- both sides (a module may render its cases for the model itself: ENCODE)
+    lines, impl_lines = run_impl(mod, cases)
     model_lines = run_model(pid, lines) if os.path.exists(MODEL) else ["model-binary-missing"] * len(lines)
     mism = [i for i in range(len(lines)) if impl_lines[i] != model_lines[i]]
     nk, kbad = kernel_crosscheck(pid, lines, model_lines) if not replay else (0, [])
@@ -433,14 +480,14 @@ def run_check(mod, tier, seed, replay=None):
     if broken and not failures and not replay and hasattr(mod, "search_cases"):
         extra = [c for _, c in mod.search_cases(tier, rng, [cases[i] for i in mism[:50]])]
         searched = len(extra)
-        eobs = run_impl(mod, extra)
-        for c, ol in zip(extra, eobs):
+        elines, eobs = run_impl(mod, extra)
+        for c, el, ol in zip(extra, elines, eobs):
             v = mod.oracle(c, dec_line(ol))
             if v is not None and match_known(known, v[0]) is None:
                 cases.append(c)
-                lines.append(encode(c))
+                lines.append(el)
                 impl_lines.append(ol)
-                model_lines.append(run_model(pid, [encode(c)])[0])
+                model_lines.append(run_model(pid, [el])[0])
                 failures.append((len(cases) - 1, v))
                 break
 
@@ -464,14 +511,14 @@ def run_check(mod, tier, seed, replay=None):
             c = cases[i]
             if hasattr(mod, "shrink"):
                 c = shrink_case(mod, c, v[0])
-                il = run_impl(mod, [c], parallel=False)[0]
-                ml = run_model(pid, [encode(c)])[0]
+                cl, il = [x[0] for x in run_impl(mod, [c])]
+                ml = run_model(pid, [cl])[0]
                 v2 = mod.oracle(c, dec_line(il))
                 if v2 is not None:
                     v = v2
             else:
                 il, ml = impl_lines[i], model_lines[i]
-            rep.update({"case": _freeze(c), "case_line": encode(c), "implementation": il, "model": ml,
+            rep.update({"case": _freeze(c), "case_line": cl if hasattr(mod, "shrink") else lines[i], "implementation": il, "model": ml,
                         "signature": v[0], "oracle_verdict": v[1],
                         "how_to_replay": "./check %s --replay %s" % (pid, os.path.relpath(rfile, VERIF))})
             tail = ""
@@ -536,7 +583,7 @@ def shrink_case(mod, case, sig, budget=400):
             if n >= budget:
                 break
             try:
-                il = run_impl(mod, [cand], parallel=False)[0]
+                il = run_impl(mod, [cand])[1][0]
                 v = mod.oracle(cand, dec_line(il))
             except Exception:
                 v = None
